@@ -670,6 +670,31 @@ def consistency_gates(ctx, fields):
                   % ("does not compare config.%s with the test case's value" % key if hit is None else "continues after finding a different `%s`" % key, key))
 
 
+def r13_13(ctx):
+    """F50: what is left of the script's output after the divider lines were removed is the kept lines put together as they are - the lines carry their
+    line feed (split_at_newline), so joining them with a separator doubles every line feed of the output that is reported for a timed-out document"""
+    prog = ctx.prog
+    f = prog.fn("remove_dividers_from_output")
+    o = Origins(f)
+    bodies = [f] + prog.closures_of(f)
+    names = [mname(t) or "" for b_ in bodies for _, t in b_.calls()]
+    sep_bad = []
+    for bb, t in f.calls():
+        if mname(t) in ("slice::join", "Join::join") and len(t["args"]) > 1:
+            k = peel(o.operand(t["args"][1]))
+            sep = k.a.as_bytes() if k.kind == "const" else None
+            if sep is None and k.kind == "const":
+                from ..cfgq import promoted_tree as _pt
+                q = _pt(prog, f, k.a)
+                sep = peel(q).a.as_bytes() if q is not None and peel(q).kind == "const" else None
+            if sep != b"":
+                sep_bad.append(sep)
+    ctx.check(any(n.endswith("split_at_newline") for n in names) and not sep_bad, "kept-lines-concatenated", f.where(),
+              "the kept lines (with their line feeds) are put together without a separator",
+              "the kept lines are joined with the separator %r although split_at_newline keeps each line's line feed: the output reported for a timed-out Cram "
+              "document has every line feed doubled (`a\\nb\\n` becomes `a\\n\\nb\\n`)" % (sep_bad[:1] or ["?"])[0])
+
+
 def run(ctx):
     ctx.run_rule("R13.1", "splice-last: the str::replace that inserts the user's shell expression is the last substitution; Cram pushes the expression unmodified [E-FLOW]", r13_1, floor=6)
     ctx.run_rule("R13.2", "divider nonce: the random salt reaches the divider reader and gates divider recognition; writer/reader prefix agree [E-FLOW, summaries depth 4]", r13_2, floor=4)
@@ -687,3 +712,4 @@ def run(ctx):
     ctx.run_rule("R13.11", "single-script execution: test cases that disagree on keep_crlf / output_stream are rejected by compile_testcase (one script, one configuration) [E-PATH]", lambda c: consistency_gates(c, ["keep_crlf", "output_stream"]), floor=2)
     from . import c20
     ctx.run_rule("R13.12", "per test: every continuing loop path of StatefulExecutor::execute_all pushes exactly one Output (also the Detached placeholder), so outputs and test cases pair positionally (shared with C20 R20.3) [E-STATE]", c20.r20_3, floor=4)
+    ctx.run_rule("R13.13", "remove_dividers_from_output concatenates the kept lines (which carry their line feed) without a separator (F50) [E-FLOW]", r13_13, floor=1)
